@@ -4,6 +4,8 @@ import (
 	"fmt"
 	"go/types"
 	"os"
+	"regexp"
+	"strconv"
 	"strings"
 )
 
@@ -238,6 +240,8 @@ func (tr *Tr) heapVar(st *State, name string, sort string) string {
 	tr.sc.declare(sym, "() "+sort)
 	tr.initVars[name] = Sc{T: sym}
 	tr.heapSorts[name] = sort
+	tr.symTop[sym] = "|top@0|"
+	tr.heapVersionAxiom(name, sym, sort, "|top@0|")
 	return sym
 }
 
@@ -245,6 +249,9 @@ func (tr *Tr) setHeapVar(st *State, name, sort, term string) {
 	// make sure the initial version exists so that old() and frames can refer to it
 	tr.heapVar(st, name, sort)
 	st.vars[name] = Sc{T: term}
+	if _, ok := tr.symTop[term]; !ok {
+		tr.symTop[term] = st.top
+	}
 }
 
 // structFieldPrefix returns the heap prefix of field i of struct type t.
@@ -306,9 +313,25 @@ func (tr *Tr) loadAt(st *State, l Loc, t types.Type) Value {
 		}
 		return out
 	}
+	tr.markHeapKinds(l, t)
 	var terms []string
+	isRef := kindOf(t) == kInt && !isString(t)
+	if isRef {
+		if _, _, isInt := intRange(t); isInt {
+			isRef = false
+		}
+	}
 	for _, lf := range tr.leavesOf(t) {
-		terms = append(terms, tr.loadLeaf(st, l, lf))
+		term := tr.loadLeaf(st, l, lf)
+		terms = append(terms, term)
+		if (isRef && lf.suffix == "" || strings.HasSuffix(lf.suffix, "#arr")) && tr.lastLoadTop != "" && !strings.Contains(term, "?") {
+			key := "reftop:" + term + tr.lastLoadTop
+			if !tr.typeFactDone[key] {
+				tr.typeFactDone[key] = true
+				// a reference read from a heap version is older than the allocation counter at that version's creation
+				tr.sc.fact(sLt(term, tr.lastLoadTop))
+			}
+		}
 	}
 	v := tr.valueFromLeaves(t, &terms)
 	tr.assumeTypeFacts(v, t, st)
@@ -337,42 +360,48 @@ func (tr *Tr) loadLeaf(st *State, l Loc, lf leaf) string {
 	switch l.Kind {
 	case LField, LCell:
 		h := tr.heapVar(st, l.Prefix+lf.suffix, arr1(lf.sort))
-		for cur := h; ; {
+		cur := h
+		for {
 			rec, ok := tr.stores[cur]
 			if !ok {
 				break
 			}
 			if rec.ref == l.Ref {
+				tr.lastLoadTop = ""
 				return rec.val
 			}
-			if tr.freshRefs[rec.ref] && tr.freshRefs[l.Ref] {
+			if tr.distinctFromFresh(rec.ref, l.Ref) {
 				cur = rec.base
 				continue
 			}
 			break
 		}
-		return sSel(h, l.Ref)
+		tr.lastLoadTop = tr.symTop[cur]
+		return sSel(cur, l.Ref)
 	case LElem:
 		h := tr.heapVar(st, l.Prefix+lf.suffix, arr2(lf.sort))
-		for cur := h; ; {
+		cur := h
+		for {
 			rec, ok := tr.stores[cur]
 			if !ok || rec.idx == "" {
 				break
 			}
-			if rec.ref == l.Ref && rec.idx == l.Idx {
+			if rec.ref == l.Ref && (rec.idx == l.Idx || rec.idx == "*") {
+				tr.lastLoadTop = ""
 				return rec.val
 			}
-			if rec.ref == l.Ref && isLiteral(rec.idx) && isLiteral(l.Idx) {
+			if rec.ref == l.Ref && rec.idx != "*" && isLiteral(rec.idx) && isLiteral(l.Idx) {
 				cur = rec.base
 				continue
 			}
-			if rec.ref != l.Ref && tr.freshRefs[rec.ref] && tr.freshRefs[l.Ref] {
+			if rec.ref != l.Ref && tr.distinctFromFresh(rec.ref, l.Ref) {
 				cur = rec.base
 				continue
 			}
 			break
 		}
-		return sSel(sSel(h, l.Ref), l.Idx)
+		tr.lastLoadTop = tr.symTop[cur]
+		return sSel(sSel(cur, l.Ref), l.Idx)
 	}
 	panic("loadLeaf")
 }
@@ -416,6 +445,7 @@ func (tr *Tr) storeAt(st *State, l Loc, t types.Type, v Value) {
 		}
 		return
 	}
+	tr.markHeapKinds(l, t)
 	lvs := tr.leavesOf(t)
 	terms := tr.valueLeaves(v, t)
 	for i, lf := range lvs {
@@ -501,4 +531,97 @@ func (g *Global) ignoredField(owner types.Type, f *types.Var) bool {
 		return true
 	}
 	return false
+}
+
+var symCounterRe = regexp.MustCompile(`[!@]([0-9]+)\|`)
+
+// distinctFromFresh: fresh is a reference allocated by this function; other is a reference term. They are distinct if
+// other is a different fresh reference, or if other only mentions symbols created before fresh was allocated
+// (a value computable before the allocation cannot be the new object).
+func (tr *Tr) distinctFromFresh(fresh, other string) bool {
+	if !tr.freshRefs[fresh] || fresh == other {
+		return false
+	}
+	if tr.freshRefs[other] {
+		return true
+	}
+	fm := symCounterRe.FindStringSubmatch(fresh)
+	if fm == nil {
+		return false
+	}
+	fn, _ := strconv.Atoi(fm[1])
+	ms := symCounterRe.FindAllStringSubmatch(other, -1)
+	if len(ms) == 0 {
+		return false
+	}
+	for _, m := range ms {
+		n, _ := strconv.Atoi(m[1])
+		if n >= fn {
+			return false
+		}
+	}
+	return !strings.Contains(other, "?")
+}
+
+// markHeapKinds records, per heap variable, what its cells hold (a reference, or an integer of a given type), so that
+// well-typedness of whole heap versions can be stated as quantified axioms.
+func (tr *Tr) markHeapKinds(l Loc, t types.Type) {
+	if l.Kind == LVar {
+		return
+	}
+	k := kindOf(t)
+	switch k {
+	case kInt:
+		name := l.Prefix
+		if _, done := tr.heapKind[name]; done {
+			return
+		}
+		if lo, hi, ok := intRange(t); ok {
+			tr.heapKind[name] = "int:" + lo + ":" + hi
+		} else if isString(t) {
+			tr.heapKind[name] = "nonneg"
+		} else {
+			tr.heapKind[name] = "ref"
+		}
+	case kSlice:
+		if _, done := tr.heapKind[l.Prefix+"#arr"]; done {
+			return
+		}
+		tr.heapKind[l.Prefix+"#arr"] = "ref"
+		tr.heapKind[l.Prefix+"#off"] = "nonneg"
+		tr.heapKind[l.Prefix+"#len"] = "nonneg"
+		tr.heapKind[l.Prefix+"#cap"] = "nonneg"
+	case kIface:
+		tr.heapKind[l.Prefix+"#tag"] = "nonneg"
+	}
+}
+
+// heapVersionAxiom states well-typedness of every cell of a heap version that is not defined by a store:
+// references are allocated (below the allocation counter at the version's creation), integers are in range.
+func (tr *Tr) heapVersionAxiom(name, sym, sort, top string) {
+	kind, ok := tr.heapKind[name]
+	if !ok {
+		return
+	}
+	var sel, vars, pat string
+	switch sort {
+	case "(Array Int Int)":
+		sel, vars = "(select "+sym+" o)", "((o Int))"
+	case "(Array Int (Array Int Int))":
+		sel, vars = "(select (select "+sym+" a) i)", "((a Int) (i Int))"
+	default:
+		return
+	}
+	pat = sel
+	var body string
+	switch {
+	case kind == "ref":
+		body = fmt.Sprintf("(and (<= 0 %s) (< %s %s))", sel, sel, top)
+	case kind == "nonneg":
+		body = fmt.Sprintf("(<= 0 %s)", sel)
+	case strings.HasPrefix(kind, "int:"):
+		parts := strings.SplitN(kind, ":", 3)
+		body = fmt.Sprintf("(and (<= %s %s) (<= %s %s))", parts[1], sel, sel, parts[2])
+	}
+	tr.sc.fact(fmt.Sprintf("(forall %s (! %s :pattern (%s)))", vars, body, pat))
 }
